@@ -54,7 +54,14 @@ def corpus():
     out.append({"text": "query A { a { b } } query B { a { b { c } } }", "vars": {}, "limit": 0, "filter": "B"})
     out.append({"text": "query A { a { b } } query B { a { b { c } } }", "vars": {}, "limit": 0, "filter": ""})
     out.append({"text": "query A { a { b } } query B { a { b { c } } }", "vars": {}, "limit": 0, "filter": "Z"})
+    # seed C19-g: the filter restricts the check to the operation of exactly that name
+    for flt in ("HeroDetails", "Hero", "Her", "HeroDetailsX", "hero"):
+        out.append({"text": "query Hero { a { b { c { d } } } } query HeroDetails { a } query Her { a { b { c } } }",
+                    "vars": {}, "limit": 1, "filter": flt})
     return out
+
+
+_NAME_FAMILY = ["Hero", "HeroDetails", "Her", "ero", "H", "hero", "HeroHero", "Details", "A", "AB", "ABC", "B"]
 
 
 def _distributions(maxd):
@@ -80,8 +87,15 @@ def generate(rng, tier):
     n = 300 if tier == "quick" else 5000
     cases = []
     for _ in range(n):
-        text, variables = gen_exec.gen_document(rng)
-        flt = rng.choice([None, None, None, "Op0", "Op1", "Nope", ""])
+        if rng.random() < 0.3:
+            # operation names that are substrings / prefixes / case variants of one another, and a filter
+            # drawn among them and their neighbours (seed C19-g: `name in filter` instead of `==`)
+            names = rng.sample(_NAME_FAMILY, 3)
+            text, variables = gen_exec.gen_document(rng, opnames=names)
+            flt = rng.choice(names + _NAME_FAMILY + [names[0] + names[1], names[1] + "x", names[0].lower()])
+        else:
+            text, variables = gen_exec.gen_document(rng)
+            flt = rng.choice([None, None, None, "Op0", "Op1", "Nope", "", "Op10", "Op", "p1", "op0"])
         cases.append({"text": text, "vars": variables, "limit": rng.randint(-1, 6), "filter": flt})
         # limit -2 flags every measured operation, exposing each measured depth
         cases.append({"text": text, "vars": variables, "limit": -2, "filter": None})
